@@ -10,4 +10,4 @@ def run_part(c):
         "compared: the interceptor invocations inside the dispatcher's step log (exact, in order) and the interceptors' own call log per message id")
     c.trust("Go harness go/harness/internal/cluster + shims go/shims/producer_*.go (C18a rides on the C01 machinery)")
     c.assume("an interceptor that panics does so before mutating the message (harness interceptors are written that way)")
-    c01.run_common(c, "c18prod", 150, 3000)
+    c01.run_common(c, "c18prod", 300, 3000)
